@@ -10,7 +10,7 @@
 // Case line:  <cfg> ; <ops> ; <trace>      (the driver reads cfg and trace, a replay re-runs ops)
 //
 //	cfg   mr=<maxRetries> bt=<bundleThreshold> to=<0|1> bs=<0|1 store commits blindly (no write-conflict detection)>
-//	ops   a<n> ack n positions | f Flush | fc Flush(cancelled ctx) | Tc Teardown(cancelled ctx) | k fire debounce timer | q quiesce | Ft/Fs/Fc fail next
+//	ops   hd<ms> next commit takes <ms> (slow store, no fault) | Wb<ms> WaitPersisted barrier probe | a<n> ack n positions | f Flush | fc Flush(cancelled ctx) | Tc Teardown(cancelled ctx) | k fire debounce timer | q quiesce | Ft/Fs/Fc fail next
 //	      flush at NewTransaction/Set/Commit | h hold next commit | r release | n<k> next k sends fail
 //	      | hs/rs hold/release sends | T Teardown | W WaitPersisted | X crash+restart
 //	trace a:<p,..> (Ack called) A (Ack returned) C:<pos>/<reopen> FT FS FC S:<p,..> N EP ES T P1 P0 R1 R0 W WH X O:<pos>
@@ -211,7 +211,7 @@ func runOps(cfg runCfg, ops []string) (trace string, verdict string) {
 	w.cur = inc
 	w.startErrsReader(inc)
 	ctx := context.Background()
-	for _, op := range ops {
+	for opi, op := range ops {
 		inc = w.cur
 		switch {
 		case op[0] == 'a':
@@ -329,8 +329,37 @@ func runOps(cfg runCfg, ops []string) (trace string, verdict string) {
 					w.emit(inc.id, "R0")
 				}
 			}
-			w.releaseCommit()
-			w.releaseSends()
+			if !(opi+1 < len(ops) && strings.HasPrefix(ops[opi+1], "Wb")) {
+				w.releaseCommit()
+				w.releaseSends()
+			}
+		case strings.HasPrefix(op, "Wb"):
+			// durability-barrier probe: WaitPersisted must not return while a commit is held. Wait <ms>
+			// (longer than any bound a broken barrier could have), then let the store answer.
+			if !inc.torn {
+				continue
+			}
+			ms, _ := strconv.Atoi(op[2:])
+			ret := make(chan struct{})
+			go func() { inc.svc.WaitPersisted(); close(ret) }()
+			select {
+			case <-ret:
+				w.emit(inc.id, "W")
+				w.releaseCommit()
+			case <-time.After(time.Duration(ms) * time.Millisecond):
+				w.releaseCommit()
+				select {
+				case <-ret:
+					w.emit(inc.id, "W")
+				case <-time.After(2 * time.Second):
+					w.emit(inc.id, "WH")
+				}
+			}
+		case strings.HasPrefix(op, "hd"):
+			ms, _ := strconv.Atoi(op[2:])
+			w.mu.Lock()
+			w.delayNext = time.Duration(ms) * time.Millisecond
+			w.mu.Unlock()
 		case op == "W":
 			if !inc.torn {
 				continue
